@@ -147,6 +147,13 @@ func hC09Req() {
 				verifAssert(bytesEq(got[i], sent[i]), "C09: messages handed to the backend are the client's")
 			}
 		}
+		if out.valid && out.code == 0 && !p.body.failEnd {
+			clientComplete := len(clientFrames)
+			if _, whole := refSplitFrames(stream); !whole {
+				clientComplete++ // the client started one more message than it finished
+			}
+			verifAssert(len(got) == clientComplete, "C01: an RPC reported successful delivered every message the client sent, none dropped")
+		}
 	}
 	if !wellFormed || p.body.failEnd {
 		verifReach("faulty-stream")
